@@ -68,6 +68,10 @@ type version struct {
 	Touch   []common.Hash               // accounts rewritten with identical content
 }
 
+// slotPadding enlarges every storage value (record mode -fat): a few dozen storage leaves then
+// exceed ethdb.IdealBatchSize, so that Commit writes and uncaches in several batches.
+var slotPadding = 0
+
 type world struct {
 	store    *mapStore
 	versions []*version
@@ -177,7 +181,7 @@ func (w *world) build(parent int, next content, touch []common.Hash) *version {
 						st.Delete(s[:])
 					}
 				} else if nv != pslots[s] || touched[k] {
-					st.Update(s[:], []byte{nv, 0xaa, 0xbb, 0xcc, 0xdd, 0xee, 0xff, 0x11, 0x22})
+					st.Update(s[:], append([]byte{nv, 0xaa, 0xbb, 0xcc, 0xdd, 0xee, 0xff, 0x11, 0x22}, make([]byte, slotPadding)...))
 				}
 			}
 			nr, set := st.Commit(false)
